@@ -305,6 +305,11 @@ mutual
         else andNonORs f (done ++ [ch']) rest es'
 end
 
+/-- `acceptChoice( ents )` whose boolean result is ignored (`OrList::matchORs`) -/
+def acceptDrop (f : Nat) (node : ST) (es : Ents) : Outcome (ST × Ents) := do
+  let (n', e', _) ← acceptChoice f node es
+  pure (n', e')
+
 mutual
   /-- `MultList::matchORs` (pure virtual; AND, ANDOR, OR) -/
   def matchORs : Nat → ST → Ents → Outcome (ST × Ents × MT)
@@ -325,10 +330,7 @@ mutual
     | f + 1, .mult .or v c c1 k cs, es => do
       let (cs', es', _, v', c', c1', k') ← orORs f 0 [] cs es .unknown v c c1 k
       let node := ST.mult .or v' c' c1' k' cs'
-      let (node', es'') ← if MT.rank .some_ ≤ v'.rank then do
-            let (n', e', _) ← acceptChoice f node es'
-            pure (n', e')
-          else pure (node, es')
+      let (node', es'') ← if MT.rank .some_ ≤ v'.rank then acceptDrop f node es' else pure (node, es')
       if v' = .all then
         match node' with
         | .mult _ _ _ c1'' _ cs'' =>
